@@ -490,6 +490,7 @@ type call struct {
 	Servers []string `json:"servers"`
 	Spoof   string   `json:"spoof,omitempty"` // identity the peer claims: none (its own) | other (the other client's) | junk
 	Via     int      `json:"via,omitempty"`   // the edge node called: 1 | 2 (0: drawn by the driver)
+	DelFail int      `json:"delfail,omitempty"` // > 0: while this request runs the route slot of that number of its hostname cannot be deleted (its ring node is unreachable)
 }
 
 type walk struct {
@@ -706,6 +707,10 @@ func (p *pubWorld) do(k call, r *rand.Rand) stepObs {
 	ctx, cancel := w.callCtx()
 	var err error
 	real := p.real[k.H]
+	if k.DelFail > 0 {
+		w.node.setDelFault(tun.RoutingKey(real, k.DelFail), errors.New("verif: ring node unreachable"))
+		defer w.node.setDelFault("", nil)
+	}
 	so.Real = real
 	switch k.Op {
 	case "generate":
